@@ -17,7 +17,7 @@ BOUNDS = {'quick': '6 document structures with <=3 modules covering all 11 modul
 STUBS = ['YAML text layer (ruamel) bypassed in the symbolic run: the tree handed to write_yaml is handed to the reader; concrete replays '
          'and witness replays go through the real YAML text']
 ASSUMPTIONS = ['R model; rectangle heights and y positions concrete (one axis symbolic)', 'Rectangle tolerances preset (1e-10, 1e-5)']
-NOT_DECIDED = ['ruamel number formatting', 'file I/O']
+NOT_DECIDED = ['ruamel number formatting', 'file I/O', 'binary64 round-off of recomputed quantities (e.g. the last bit of a centroid summed in another rectangle order after the trunk was moved first): R model']
 MUST_REACH = ['roundtrip']
 
 
